@@ -82,17 +82,17 @@ func viol(prop, sig, f string, a ...any) Violation {
 
 // Expect is what the documented decision procedure yields for a group in a scan.
 type Expect struct {
-	Kind      string  // "unprocessed" | "dry" | "skip" | "recover" | "locked" | "band" | "ambiguous"
-	Why       string  // for skip
-	Bands     [4]bool // acceptable bands (Kind == band)
-	Edge      string
-	N         int   // recovery need (Kind == recover)
-	Need      int64 // least number of equal-size nodes to add (band up, equal sizes, U > 0); -1 unknown
-	EqualSize bool
-	FromZero  bool
+	Kind        string  // "unprocessed" | "dry" | "skip" | "recover" | "locked" | "band" | "ambiguous"
+	Why         string  // for skip
+	Bands       [4]bool // acceptable bands (Kind == band)
+	Edge        string
+	N           int   // recovery need (Kind == recover)
+	Need        int64 // least number of equal-size nodes to add (band up, equal sizes, U > 0); -1 unknown
+	EqualSize   bool
+	FromZero    bool
 	NoSizeKnown bool // scaling from zero with no node size ever observed: exactly one node
-	Starve    bool // documented scale_on_starve condition holds
-	MaxAge    bool // documented max_node_age condition holds
+	Starve      bool // documented scale_on_starve condition holds
+	MaxAge      bool // documented max_node_age condition holds
 }
 
 func equalSizes(nodes []*v1.Node) bool {
@@ -334,17 +334,20 @@ func (w *World) CheckAll(rec *ScanRecord) []Violation {
 // groups see. Reported under the properties such a corruption breaks.
 func (w *World) MCache(rec *ScanRecord) []Violation {
 	var out []Violation
+	if rec.ViewAfter == nil {
+		return nil
+	}
 	diff := ""
-	if len(w.V.Nodes) != len(rec.View.Nodes) || len(w.V.Pods) != len(rec.View.Pods) {
+	if len(rec.ViewAfter.Nodes) != len(rec.View.Nodes) || len(rec.ViewAfter.Pods) != len(rec.View.Pods) {
 		diff = "number of cached objects changed"
 	}
-	for i := 0; diff == "" && i < len(w.V.Nodes); i++ {
-		if !reflect.DeepEqual(w.V.Nodes[i], rec.View.Nodes[i]) {
-			diff = fmt.Sprintf("cached node %s: served with taints %v, now %v", rec.View.Nodes[i].Name, briefTaints(rec.View.Nodes[i]), briefTaints(w.V.Nodes[i]))
+	for i := 0; diff == "" && i < len(rec.ViewAfter.Nodes); i++ {
+		if !reflect.DeepEqual(rec.ViewAfter.Nodes[i], rec.View.Nodes[i]) {
+			diff = fmt.Sprintf("cached node %s: served with taints %v, now %v", rec.View.Nodes[i].Name, briefTaints(rec.View.Nodes[i]), briefTaints(rec.ViewAfter.Nodes[i]))
 		}
 	}
-	for i := 0; diff == "" && i < len(w.V.Pods); i++ {
-		if !reflect.DeepEqual(w.V.Pods[i], rec.View.Pods[i]) {
+	for i := 0; diff == "" && i < len(rec.ViewAfter.Pods); i++ {
+		if !reflect.DeepEqual(rec.ViewAfter.Pods[i], rec.View.Pods[i]) {
 			diff = fmt.Sprintf("cached pod %s was modified", rec.View.Pods[i].Name)
 		}
 	}
@@ -722,7 +725,9 @@ func (w *World) M06(rec *ScanRecord) []Violation {
 	return out
 }
 
-func createdBefore(a, b *v1.Node) bool { return a.CreationTimestamp.Time.Before(b.CreationTimestamp.Time) }
+func createdBefore(a, b *v1.Node) bool {
+	return a.CreationTimestamp.Time.Before(b.CreationTimestamp.Time)
+}
 
 func inSet(s []string, x string) bool {
 	for _, v := range s {
@@ -1246,7 +1251,7 @@ func (w *World) M19(rec *ScanRecord) []Violation {
 		// a batch = the terminate calls of one DeleteNodes call (closed by its marker); node
 		// deletions that follow belong to that batch
 		accepted := map[string]bool{} // node name -> termination accepted in the batch being built
-		var lastOK map[string]bool     // accepted terminations of the last closed batch
+		var lastOK map[string]bool    // accepted terminations of the last closed batch
 		lastBatchOK := false
 		for _, e := range gr.Seg {
 			switch e.Kind {
